@@ -19,6 +19,8 @@ from .base import canon, parallel
 from .render import (POSITION_PART, ctx_arg, effective_ctx, equal_under, field_of, flat_calls, recv_key,
                      render_targets, resolve, value_is)
 
+# helpers whose sites are checked in the run of their (only) caller, which fixes the context they receive
+INLINE_ONLY = {"_orderby_field"}
 POS_ATOMS = ["ctx.with_alias", "ctx.subquery", "ctx.subcriterion", "ctx.with_namespace"]
 
 
@@ -41,6 +43,12 @@ def site_rule(fi, ci, func_short, rk):
         # inside an expression node every child is an operand: never print its alias (C12)
         return {"with_alias": P.OFF}
     return None
+
+
+def may_be_term(ex, ef) -> bool:
+    r = repo()
+    tl = ex.tags.sub(r.cls("terms.Term")) | ex.tags.sub(r.cls("queries.Selectable"))
+    return ef.recv_tags is None or bool(ef.recv_tags & tl)
 
 
 def alias_is_self(a) -> bool:
@@ -92,6 +100,20 @@ def depends_on_position(ex, v) -> list:
     return out
 
 
+def shape_of(ex, v):
+    """text of a str-valued result without triggering new contract calls"""
+    if isinstance(v, S):
+        return v
+    if isinstance(v, IteV):
+        a, b = shape_of(ex, v.a), shape_of(ex, v.b)
+        return S((IteA(v.c, a.atoms, b.atoms),))
+    if isinstance(v, K) and isinstance(v.v, str):
+        return S((Lit(v.v),))
+    if isinstance(v, Sym):
+        return S((Dyn(v, "raw"),))
+    raise ValueError(v)
+
+
 def check_one(item):
     fq, cq, covered = item
     r = repo()
@@ -125,12 +147,15 @@ def check_one(item):
             rk = recv_key(ex, ef, o.state)
             func_short = ef.site.split("|")[0]
             rule = site_rule(fi, ci, func_short, rk)
+            if rule is not None and not may_be_term(ex, ef):
+                rule = None          # the receiver cannot carry an alias (schema, SQL type ...)
             feasible = None
             for flag in POSITION_PART:
                 passed = field_of(ex, o.state, cv, flag)
                 if passed is None:
                     continue
-                if rule is not None and flag in rule and func_short == fi.short:
+                owner_run = func_short == fi.short or func_short.split(".")[-1] in INLINE_ONLY
+                if rule is not None and flag in rule and owner_run and fi.name not in INLINE_ONLY:
                     if isinstance(passed, K):
                         v = "yes" if passed.v == rule[flag] else "no"
                     else:
@@ -182,14 +207,22 @@ def check_one(item):
                                   witness={"family": "call", "oracle": "embedding_leak",
                                            "args": [func_short, ci.short, rk, flag]}))
     # ---- alias/class: the term's own alias is printed exactly when the position defines one
-    if fi.name == "get_sql" and ex.slot_spec(ci, "alias") is not None and ctxp is not None and not is_stmt:
+    if fi.name == "get_sql" and ex.slot_spec(ci, "alias") is not None and ctxp is not None and not is_stmt \
+            and r.cls("terms.Term") in ci.mro:
         wa = ex.smt.atom("ctx.with_alias")
         alias_none = ex.smt.tag_in("self.alias", frozenset({"NoneType"}), ex.tags.of_spec("name|None"))
         on_ok, off_ok, n = True, True, 0
         on_why = off_why = ""
         for o in run.outcomes:
-            if o.status != "return" or not isinstance(o.value, S):
+            if o.status != "return":
                 continue
+            if not isinstance(o.value, S):
+                try:
+                    ex.st = o.state
+                    ex.frames = []
+                    o.value = shape_of(ex, o.value)
+                except Exception:
+                    continue
             n += 1
             pc_on = o.state.pc + [wa, z3.Not(alias_none)]
             if isinstance(ctxp, Sym) and ctxp.tags and "NoneType" in ctxp.tags:
